@@ -130,7 +130,9 @@ TYPES = "TYPE zt\na AS INTEGER\nb AS LONG\nEND TYPE\n"
 def wrap_depth(e, kind, depth, r):
     for _ in range(depth):
         if kind == 'n':
-            e = r.choice(['({e}) + 1', 'ABS({e})', '2 * ({e})', '-({e})', 'zfn(({e}))', 'CINT({e}) \\ 1']).format(e=e)
+            # (the last two: a user FUNCTION has run to completion, its result pending, before the failing operation)
+            e = r.choice(['({e}) + 1', 'ABS({e})', '2 * ({e})', '-({e})', 'zfn(({e}))', 'CINT({e}) \\ 1', 'zfn(3) + ({e})',
+                          'zfn(zfn(2)) * ({e})']).format(e=e)
         else:
             e = r.choice(['"x" + {e}', 'UCASE$({e})', 'LEFT$({e}, 1)', '{e} + "y"', 'LTRIM$({e})']).format(e=e)
     return e
@@ -169,7 +171,8 @@ def fault_program(cause, depth, place, handler, stmt_form, r):
         lines += ['zouter']
     else:
         lines += ['zv = zouterf(1)']
-    lines += ['PRINT "end"', 'END']
+    # without a handler label after it, the main routine may also simply run off its end (its own ret pops whatever is left)
+    lines += ['PRINT "end"'] + ([] if (handler != 'goto' and r.random() < 0.5) else ['END'])
     if handler == 'goto':
         lines += ['zhandler:', 'PRINT "handler"; ERR', 'RESUME NEXT']
     procs = PROCS + ("FUNCTION zfn (x)\nzfn = x\nEND FUNCTION\nSUB zpsub (x)\nEND SUB\nSUB zpsubs (x$)\nEND SUB\n")
@@ -494,6 +497,19 @@ def extreme_programs():
         ascii_items = [x for x in items if all(32 <= ord(c) < 127 for c in x)]
         lines = ['ON ERROR GOTO zh'] + [f'READ zq{t}: PRINT zq{t}' for _ in ascii_items] + ['DATA ' + ', '.join(ascii_items)]
         out.append((f'read|{t}', '\n'.join(lines) + '\nPRINT "done"; zerrs%\n' + EXT_TAIL, {}, True))
+    # a user FUNCTION has returned (its result pending) before the statement fails under an armed handler; afterwards the
+    # routine simply runs off its end / returns (no END in between): whatever was left on the stack meets a ret
+    fn = 'FUNCTION zf& (n&)\nzt& = n& * 2\nzf& = zt&\nEND FUNCTION\n'
+    tails = [
+        'ON ERROR RESUME NEXT\nz& = 0\nx& = zf&(7) + 10 \\ z&\nPRINT "after"; x&\n' + fn,
+        'ON ERROR GOTO zh\nx& = zf&(7) + 10 \\ z&\nPRINT "after"\nGOTO zfin\nzh: RESUME NEXT\nzfin: PRINT "fin"\n' + fn,
+        'ON ERROR RESUME NEXT\nzs\nPRINT "back"\nSUB zs\nx& = zf&(7) + 10 \\ z&\nPRINT "in"\nEND SUB\n' + fn,
+        'ON ERROR RESUME NEXT\nx& = zf&(1) + zf&(zf&(2)) * (10 \\ z&)\nGOSUB zg\nPRINT "back"\nGOTO zfin\nzg: y& = zf&(3) - 10 \\ z&\nRETURN\nzfin: PRINT "fin"\n' + fn,
+        'ON ERROR GOTO zh\nFOR i% = 1 TO 2\nPRINT zf&(i% + 0) + 10 \\ z&\nNEXT\nGOTO zfin\nzh: RESUME NEXT\nzfin: PRINT "fin"\n' + fn,
+    ]
+    for ti, t_ in enumerate(tails):
+        for rep in range(3):
+            out.append((f'pending-function-result|{ti}|{rep}', t_, {}, True))
     # the same single statements with no handler armed (the default reporting path), a rotating sample
     k = 0
     for vi, (t, v) in enumerate(EXT_NUM_VALUES):
